@@ -84,7 +84,12 @@ func c02emit(p *Program, r *Report, rule string) {
 			continue // type assertions on rwc to report addresses; no I/O
 		}
 		r.UseFunc(fname)
-		ok := allowed[fname] != nil && allowed[fname][cs.Name]
+		ok := true
+		for _, owner := range p.siteOwners(cs.Fn) {
+			if !(allowed[owner] != nil && allowed[owner][cs.Name]) {
+				ok = false
+			}
+		}
 		n++
 		r.Exists(rule, fname, cs.Name, p.InstrPos(cs.Instr), ok,
 			"transport output goes through writeFrame → writeFrameHeader/writeFramePayload only (single emitter); teardown and the constructor are the only other users of Conn.bw/Conn.rwc",
